@@ -42,7 +42,7 @@ Next == \/ \E d \in Regs, i \in 1..NPool : Load(d, i)
         \/ \E d, a \in Regs : EqSame(d, a) \/ ZeroDiff(d, a)
         \/ \E d, a, b \in Regs : Lin2("add", d, a, b) \/ Lin2("sub", d, a, b) \/ Mul(d, a, b)
         \/ \E d, a \in Regs : Neg(d, a) \/ Un("square", d, a) \/ Un("square_and_double", d, a) \/ Un("invert", d, a) \/ Un("pow25523", d, a)
-        \/ \E d, a \in Regs, n \in {1, 2, 5} : SqN(d, a, n)
+        \/ \E d, a \in Regs, n \in {0, 1, 2, 5} : SqN(d, a, n)
         \/ \E a \in Regs : Obs("to_bytes", a) \/ Obs("is_negative", a) \/ Obs("is_nonzero", a)
         \/ \E a, b \in Regs : Eq(a, b)
 Spec == Init /\ [][Next]_vars
